@@ -84,12 +84,12 @@ def fdList (l : List Nat) : String :=
 def parseBool (s : String) : Option Bool :=
   if s == "0" then some false else if s == "1" then some true else none
 
-def runLine (toks : List String) : List String :=
+def runLine (code : Code) (toks : List String) : List String :=
   match toks with
   | l :: u :: f :: rest =>
     match parseBool l, parseBool u, parseBool f, rest.mapM parseAns with
     | some l, some u, some f, some script =>
-      let r := Startup.run ⟨l, u, f⟩ script
+      let r := Startup.run ⟨l, u, f, code⟩ script
       let L := r.2.led
       r.2.tr.map evLine ++
         [ "OPEN " ++ fdList L.opn, "REG " ++ fdList (L.reg.map (·.1)), "PEERS " ++ fdList (L.peers.map (·.1)),
@@ -99,14 +99,15 @@ def runLine (toks : List String) : List String :=
     | _, _, _, _ => ["ERROR bad run", "END"]
   | _ => ["ERROR bad run", "END"]
 
-def stepLine (_ : Unit) (line : String) : Unit × List String :=
+def stepLine (code : Code) (line : String) : Code × List String :=
   match words line with
-  | [] => ((), [])
-  | "run" :: toks => ((), runLine toks)
-  | w :: _ => if w.startsWith "#" then ((), []) else ((), ["ERROR unknown op", "END"])
+  | [] => (code, [])
+  | "run" :: toks => (code, runLine code toks)
+  | w :: _ => if w.startsWith "#" then (code, []) else (code, ["ERROR unknown op", "END"])
 
-def run (_args : List String) : IO UInt32 := do
-  runLines stepLine ()
+/-- arguments: `destroy-at-end` and / or `restore-on-pipe-fail` select the repaired code paths -/
+def run (args : List String) : IO UInt32 := do
+  runLines stepLine ⟨args.contains "destroy-at-end", args.contains "restore-on-pipe-fail"⟩
   pure 0
 
 end Cjet.Drv.Startup
